@@ -76,4 +76,34 @@ def build(reg):
           ensures={"vertex_histogram": "forall_elem(key, JD, result.get(key, 0.0) == cntn(G, key, len(nodes(G))) * (1.0 / order(G)))"},
           loops={0: dict(inv={"acc": "forall_elem(key, JD, PK.get(key, 0.0) == cntn(G, key, IT) * (1.0 / num_vertices))", "n": "num_vertices == order(G) and num_vertices >= 1"})})
     NS["order"] = dict(smt=lambda ex, g: Val(INT, ORDER(g.z)), rt=lambda g: g.order())
-    return quals + ["JointExcessfromJDD.get_joint_excess_distributions", "JointDegreeFromExcess.invert_single", "JointDegreeDistributionFromNetwork.get_joint_degree_distribution"]
+    # ---- row sums of mixing matrices
+    Name = Elem("Name"); Key = PairT(JD, JD); MAT1 = DictT(Key, REAL); KEYL = ListT(JD); QD = DictT(JD, REAL)
+    reg.type("Name", Name)
+    reg.binop_hooks["concat"] = lambda ex, a, b: (ex.assumptions.add("L-CAT: a + b on equal-length joint-degree tuples is represented as the pair (a, b)") or Val(Key, Key.mk(a.z, b.z))) if (isinstance(a.t, ListT) and a.t.tagged and isinstance(b.t, ListT) and b.t.tagged) else None
+    NS["cat"] = dict(smt=lambda ex, a, b: Val(Key, Key.mk(a.z, b.z)), rt=lambda a, b: a + b)
+    reg.specfun("rsum", [("ejk", MAT1), ("keys", KEYL), ("left", JD), ("n", INT)], REAL, base="0.0", rec="rsum(ejk, keys, left, n - 1) + (ejk[cat(left, keys[n - 1])] if cat(left, keys[n - 1]) in ejk else 0.0)")
+    reg.specfun("hits", [("ejk", MAT1), ("keys", KEYL), ("left", JD), ("n", INT)], INT, base="0", rec="hits(ejk, keys, left, n - 1) + (1 if cat(left, keys[n - 1]) in ejk else 0)")
+    reg.lemma("hits_nonneg", vars={"ejk": MAT1, "keys": KEYL, "left": JD, "n": INT}, induct="n", stmt="hits(ejk, keys, left, n) >= 0", trigger="hits(ejk, keys, left, n)")
+    mx = reg.module("gcmpy/tools/joint_excess_joint_degree_matrices.py")
+    MATS = mx.cls("JointExcessJointDegreeMatrices", fields={"_ejks": DictT(Name, MAT1), "_excess_degree_keys": DictT(Name, KEYL), "_topology_names": ListT(Name)}, properties={"excess_degree_keys": "_excess_degree_keys", "ejks": "_ejks"})
+    mr = reg.module("gcmpy/tools/joint_excess_from_ejk.py")
+    mr.cls("JointExcessFromEjk", fields={})
+    ROWK = "forall(a, 0, IT2, ((keys[a] in q) == (hits(ejk, keys, keys[a], len(keys)) > 0)) and q.get(keys[a], 0.0) == rsum(ejk, keys, keys[a], len(keys)), trigger=keys[a])"
+    DUPFREE = "forall(a, 0, len(keys), forall(b, a + 1, len(keys), keys[a] != keys[b]))"
+    TOPQ = ("(t in qks) and forall(a, 0, len(ejks._excess_degree_keys[t]), qks[t].get(ejks._excess_degree_keys[t][a], 0.0) == rsum(ejks._ejks[t], ejks._excess_degree_keys[t], ejks._excess_degree_keys[t][a], len(ejks._excess_degree_keys[t])), "
+            "trigger=ejks._excess_degree_keys[t][a])")
+    mr.fn("JointExcessFromEjk.get_excess_joint_distributions", params={"ejks": MATS.ty}, ret=DictT(Name, QD), locals={"qks": DictT(Name, QD), "q": QD}, pure=False,
+          requires={"one_key_list_per_matrix": "forall_elem(t, Name, implies(t in ejks._ejks, t in ejks._excess_degree_keys))",
+                    "key_lists_duplicate_free": "forall_elem(t, Name, implies(t in ejks._ejks, forall(a, 0, len(ejks._excess_degree_keys[t]), forall(b, a + 1, len(ejks._excess_degree_keys[t]), ejks._excess_degree_keys[t][a] != ejks._excess_degree_keys[t][b]))))"},
+          ensures={"row_sums_over_the_second_index": "forall_elem(t, Name, implies(t in ejks._ejks, " + TOPQ.replace("qks", "result") + "))", "input_unchanged": "ejks == old(ejks)"},
+          raises={"TypeError": dict(when="True", only=False)},
+          loops={0: dict(inv={"done": "forall(j, 0, IT, " + TOPQ.replace("[t]", "[KEYS[j]]").replace("(t in qks)", "(KEYS[j] in qks)") + ", trigger=KEYS[j])", "frame": "ejks == old(ejks)"},
+                         head_snap={"J": "IT", "qks_h": "qks"}, end_hints={"stored": "qks[key] == q and (key in qks)", "others": "forall(j, 0, J, qks[KEYS[j]] == qks_h[KEYS[j]] and (KEYS[j] in qks), trigger=KEYS[j])"}, 
+                         uses={"done": ["frame"]}),
+                1: dict(inv={"ctx": "key == KEYS[J] and (key in ejks._ejks) and ejk == ejks._ejks[key] and keys == ejks._excess_degree_keys[key] and " + DUPFREE, "frame": "ejks == old(ejks) and qks == qks_in",
+                             "rows": ROWK.replace("IT2", "IT"), "later_untouched": "forall(a, IT, len(keys), not (keys[a] in q), trigger=keys[a])"},
+                        snap={"qks_in": "qks"}, head_snap={"A": "IT"}),
+                2: dict(inv={"ctx": "key == KEYS[J] and ejk == ejks._ejks[key] and keys == ejks._excess_degree_keys[key] and left_key == keys[A] and 0 <= A and A < len(keys) and " + DUPFREE, "frame": "ejks == old(ejks) and qks == qks_in",
+                             "rows": ROWK.replace("IT2", "A"), "later_untouched": "forall(a, A + 1, len(keys), not (keys[a] in q), trigger=keys[a])",
+                             "current": "((left_key in q) == (hits(ejk, keys, left_key, IT) > 0)) and q.get(left_key, 0.0) == rsum(ejk, keys, left_key, IT)"})})
+    return quals + ["JointExcessfromJDD.get_joint_excess_distributions", "JointDegreeFromExcess.invert_single", "JointDegreeDistributionFromNetwork.get_joint_degree_distribution", "JointExcessFromEjk.get_excess_joint_distributions"]
